@@ -8,13 +8,13 @@ from ._machine import MachineCheck
 ID = "C17"
 RULE = (
     "C01-style write histories on a calendar, an address book, a second calendar and an optional bare calendar; at generated points a calendar-/addressbook-multiget with 0-8 hrefs (duplicates allowed) drawn from: "
-    "live members, deleted members, never-existing names, fully percent-encoded and minimally encoded spellings (sub-delimiters such as ';' left literal), '<name>;1'-style neighbours of live members, absolute URLs, the collection itself, members of other collections, members of the wrong kind, "
+    "live members, deleted members, never-existing names, fully percent-encoded and minimally encoded spellings, spellings with a trailing slash / a dot segment / a doubled slash / 'x/..' that normalise to a live member, (sub-delimiters such as ';' left literal), '<name>;1'-style neighbours of live members, absolute URLs, the collection itself, members of other collections, members of the wrong kind, "
     "hrefs outside the route prefix incl. prefix look-alikes ('/davuser/...' for '/dav/'), empty and malformed hrefs; under every prefix and both front ends; in between, REPORTs that ask for a *part* of the data (comp/prop selections, novalue, expand, limit-recurrence-set, address-data props; via query or multiget). Oracle: answers are matched to requests by decoded path; "
     "every distinct requested path is answered exactly once; a live member of the right kind carries GET's ETag and body; everything else carries a 404 (response or data property) and no data; the same request "
     "reversed and each href alone give identical per-href answers. Non-trivial: a request mixing >=1 live, >=1 dead and >=1 out-of-namespace (or, under prefix '/', wrong-kind) href; distinct by (classes, href kinds, prefix, front end)."
 )
 
-KINDS = ["live", "live", "live", "literal", "literal", "params-suffix", "dead", "never", "overencoded", "absolute", "collection", "other-coll", "other-coll", "lookalike", "noprefix", "empty", "malformed"]
+KINDS = ["live", "live", "live", "trailing-slash", "dot-segment", "double-slash", "dotdot", "literal", "literal", "params-suffix", "dead", "never", "overencoded", "absolute", "collection", "other-coll", "other-coll", "lookalike", "noprefix", "empty", "malformed"]
 
 
 @st.composite
